@@ -120,6 +120,41 @@ def matrix(names):
     return 0
 
 
+def targets(names):
+    """every seed against its TARGET check only, each in its own scratch worktree (parallel): regression of the catches"""
+    names = names or sorted(n for n in os.listdir(os.path.join(VERIF, "seeded")) if os.path.isdir(os.path.join(VERIF, "seeded", n)))
+
+    def one(name):
+        d = os.path.join(VERIF, "seeded", name)
+        meta = json.load(open(os.path.join(d, "meta.json")))
+        pid = meta["property"]
+        wt = "/tmp/tg_" + name
+        sh("git -C /repo worktree remove --force %s" % wt)
+        sh("git -C /repo worktree add -q --detach %s HEAD" % wt)
+        rc, out = sh("git apply %s" % os.path.join(d, "patch.diff"), cwd=wt)
+        if rc != 0:
+            sh("git -C /repo worktree remove --force %s" % wt)
+            return name, pid, "patch does not apply"
+        scratch = "/tmp/tg_scratch_" + name
+        rc, out = sh("./check %s --tier quick" % pid, cwd=VERIF, timeout=3600,
+                     env={"CFI_REPO": wt, "VERIF_SCRATCH": scratch, "VERIF_EVIDENCE_DIR": scratch + "/evidence", "VERIF_JOBS": "3"})
+        viol = [l for l in out.splitlines() if l.startswith("VIOLATION")]
+        sh("git -C /repo worktree remove --force %s" % wt)
+        shutil.rmtree(scratch, ignore_errors=True)
+        res = "caught" if rc != 0 and viol else "MISSED"
+        if viol and all("no-failing-input-found" in l for l in viol):
+            res = "caught (no-failing-input-found)"
+        return name, pid, res
+    import concurrent.futures
+    bad = 0
+    with concurrent.futures.ThreadPoolExecutor(max_workers=int(os.environ.get("MATRIX_JOBS", "5"))) as ex:
+        for name, pid, res in ex.map(one, names):
+            print(name, pid, res, flush=True)
+            bad += res.startswith("MISSED") or res.startswith("patch")
+    print("seeds not caught by their target check:", bad)
+    return 1 if bad else 0
+
+
 def summary():
     rows = []
     for name in sorted(os.listdir(os.path.join(VERIF, "seeded"))):
@@ -141,6 +176,8 @@ def summary():
 if __name__ == "__main__":
     if sys.argv[1] == "matrix":
         sys.exit(matrix(sys.argv[2:]))
+    if sys.argv[1] == "targets":
+        sys.exit(targets(sys.argv[2:]))
     if sys.argv[1] == "summary":
         sys.exit(summary())
     if sys.argv[1] == "verify":
